@@ -58,42 +58,102 @@ def find_switch(p, tm):
     return sw
 
 
+def flag_guards(p):
+    """The three reset decisions of the chunk parser, found by what they guard:
+    role -> (guard block, bool local tested, true edge, false edge, [action blocks])."""
+    from engine.flow import PosTerms
+    pt = PosTerms(p)
+    c = cfg(p)
+    tm = Terms(p)
+    actions = {
+        "reset_dict": [blk.idx for blk in p.calls() if (flow.callee(blk.term) or "").endswith("LzAccumBuffer::reset")],
+        "reset_state": [blk.idx for blk in p.calls() if (flow.callee(blk.term) or "").endswith("DecoderState::reset_state")],
+    }
+    # the properties byte: the read_u8 whose value is range-checked against 225 / split by 9 and 5
+    props_reads = []
+    for blk in p.calls():
+        if (flow.declared(blk.term) or "").endswith("read_u8"):
+            used = False
+            for (bb, t, z, nz) in pat.guards(p)[0]:
+                if pat.has_const(t, 225) and any(q[0] == "call" and len(q) > 3 and q[3] == blk.idx for q in _sub(t)):
+                    used = True
+            if used:
+                props_reads.append(blk.idx)
+    actions["reset_props"] = props_reads
+    out = {}
+    for blk in p.blocks:
+        if blk.cleanup or blk.term.k != "switch" or len(blk.term.targets) != 1 or blk.term.targets[0][0] != 0:
+            continue
+        d = blk.term.discr
+        if d.place is None or d.place.proj or p.locals[d.place.local].ty.k != "bool":
+            continue
+        te, fe = blk.term.otherwise, blk.term.targets[0][1]
+        for role, acts in actions.items():
+            if not acts:
+                continue
+            if all(c.dominates(te, x) or te == x for x in acts) and len(c.pred[te]) == 1:
+                # keep the innermost such guard
+                if role not in out or c.dominates(out[role][2], te):
+                    out[role] = (blk.idx, d.place.local, te, fe, acts)
+    return out, pt, c
+
+
+def _sub(t, out=None):
+    out = [] if out is None else out
+    if isinstance(t, tuple):
+        if t and isinstance(t[0], str):
+            out.append(t)
+        for x in t:
+            if isinstance(x, tuple):
+                _sub(x, out)
+    return out
+
+
+EXPECT = {"reset_dict": lambda st: st >= 0xE0, "reset_state": lambda st: st >= 0xA0, "reset_props": lambda st: st >= 0xC0}
+
+
 def rule_table(facts):
     r = report.RuleResult("C02.R1", "the control byte selects the format's reset class")
     p = pat.body_of(facts, "Lzma2Decoder::parse_lzma")
     r.need("parse_lzma", p is not None)
     if p is None:
         return r
-    tm = Terms(p)
-    sw = find_switch(p, tm)
-    r.need("switch on (status >> 5) & 3", sw is not None)
-    if sw is None:
-        return r
-    arms = dict(sw.term.targets)
-    roles, cols, named = flag_roles(p, arms)
+    fg, pt, c = flag_guards(p)
     r.sites = 4
-    if named:
-        inv = {v: k for k, v in roles.items()}
-        okk = True
-        for v in (0, 1, 2, 3):
-            tup = tuple(cols[inv[k]].get(v) for k in ("reset_dict", "reset_state", "reset_props"))
-            if tup != TABLE[v]:
-                okk = False
-                r.bad("table|class%d" % v, "reset class %d sets (dict,state,props) = %s, the format says %s" % (v, tup, TABLE[v]),
-                      pat.where(p, arms.get(v, sw.idx)))
-        if okk:
-            r.ok("table", {"reset classes": {str(v): TABLE[v] for v in TABLE}})
-    elif sorted(roles.values()) == sorted(COLS.values()):
-        r.ok("table", {"reset classes": {str(v): TABLE[v] for v in TABLE}, "flags identified": "by their columns"})
-    else:
-        r.bad("table|columns", "the three reset flags do not have the format's columns over the four reset classes: %s"
-              % sorted(tuple(c.get(v) for v in (0, 1, 2, 3)) for c in cols.values()), pat.where(p, sw.idx))
-    # default arm is a panic/unreachable
-    ob = p.blocks[sw.term.otherwise]
-    if ob.term.k in ("unreachable",) or (ob.term.k == "call" and ob.term.target is None):
-        r.ok("dead", {"default arm": "unreachable (two-bit selector)"})
-    else:
-        r.bad("table|default", "the default arm of the reset-class switch does something", pat.where(p, sw.term.otherwise))
+    r.need("the three reset decisions (dictionary reset, state reset, new properties) of parse_lzma (found %s)" % sorted(fg), len(fg) == 3)
+    for role, (gb, loc, te, fe, acts) in sorted(fg.items()):
+        bad = None
+        try:
+            term_at = lambda b_: pt.at(b_.idx, None).of_operand(b_.term.discr)
+            conds = pat.branch_conditions(p, c, gb, term_at)
+            for st in range(0x80, 0x100):
+                leaf = lambda q, st=st: st if (q[0] == "arg" and q[2] == "status") else (_ for _ in ()).throw(pat.NotEvaluable(q))
+                # is the decision reached for this control byte?  (tests that do not depend on the control byte - `?` on reads -
+                # hold on the error-free path)
+                reached = True
+                for (cb, t, cond) in conds:
+                    try:
+                        if not pat._cond_holds(t, cond, leaf):
+                            reached = False
+                            break
+                    except pat.NotEvaluable:
+                        continue
+                fires = bool(pat.eval_gated(p, pt, loc, gb, leaf)) if reached else False
+                if fires != EXPECT[role](st):
+                    bad = "control byte 0x%02x: %s %s, the format says it %s" % (
+                        st, {"reset_dict": "the dictionary reset", "reset_state": "the state reset", "reset_props": "the read of new properties"}[role],
+                        "happens" if fires else "does not happen", "does" if EXPECT[role](st) else "does not")
+                    break
+        except pat.NotEvaluable as ex:
+            r.bad("table|%s-term" % role, "cannot evaluate %s as a function of the control byte (%s)" % (role, flow.show(ex.args[0])[:60] if isinstance(ex.args[0], tuple) else ex.args[0]),
+                  pat.where(p, gb), "unverifiable")
+            continue
+        except pat.Overflow as ex:
+            bad = "the computation of %s overflows" % role
+        if bad:
+            r.bad("table|%s" % role, bad, pat.where(p, gb))
+        else:
+            r.ok("evaluation", {role: "for all 128 control bytes 0x80..0xFF: %s" % {"reset_dict": ">= 0xE0", "reset_state": ">= 0xA0", "reset_props": ">= 0xC0"}[role]})
     # decompress: status 1 -> reset true, 2 -> false
     d = pat.body_of(facts, "Lzma2Decoder::decompress")
     if d is not None:
@@ -156,42 +216,22 @@ def rule_carry(facts):
         r.need("parse_lzma", False)
         return r
     gs, tm = pat.guards(p)
-    c = cfg(p)
-    sw = find_switch(p, tm)
-    roles = flag_roles(p, dict(sw.term.targets))[0] if sw is not None else {}
-
-    def src_local(l):
-        # temps holding a copy of a named local
-        for _ in range(4):
-            if l in roles:
-                return l
-            ds = [s for blk in p.blocks if not blk.cleanup for s in blk.stmts if s.k == "assign" and not s.place.proj and s.place.local == l]
-            if len(ds) == 1 and ds[0].rv.k == "use" and ds[0].rv.op.place is not None and not ds[0].rv.op.place.proj:
-                l = ds[0].rv.op.place.local
-            else:
-                return l
-        return l
-
-    def flag_guard(name):
-        for (bb, t, z, nz) in gs:
-            d = p.blocks[bb].term.discr
-            if d.place is not None and not d.place.proj and roles.get(src_local(d.place.local)) == name:
-                return (bb, nz, z)
-        return None
+    fg, pt, c = flag_guards(p)
     want = {"reset_dict": "LzAccumBuffer::reset", "reset_state": "DecoderState::reset_state"}
     for flag, cal in want.items():
-        g = flag_guard(flag)
-        calls = [blk.idx for blk in p.calls() if (flow.callee(blk.term) or "").endswith(cal)]
         r.sites += 1
-        if g is None or not calls:
-            r.bad("carry|%s" % flag, "cannot find `if %s { %s }`" % (flag, cal), pat.where(p), "unverifiable")
+        if flag not in fg:
+            r.bad("carry|%s" % flag, "cannot find the decision guarding %s" % cal, pat.where(p), "unverifiable")
             continue
-        bb, yes, no = g
+        bb, loc, yes, no, calls = fg[flag]
         if all(c.dominates(yes, x) or yes == x for x in calls) and not any(x in c.reachable_from(no, avoid=[yes]) and
                                                                            not c.dominates(yes, x) for x in calls):
             r.ok("control-dependence", {flag: "%s executed iff set" % cal.split("::")[-1]})
         else:
             r.bad("carry|%s-cond" % flag, "%s is not executed exactly when %s is set" % (cal, flag), pat.where(p, bb))
+
+    def flag_guard(name):
+        return (fg[name][0], fg[name][2], fg[name][3]) if name in fg else None
     # properties: read iff reset_props else stored ones
     g = flag_guard("reset_props")
     rs = [blk for blk in p.calls() if (flow.callee(blk.term) or "").endswith("DecoderState::reset_state")]
